@@ -198,7 +198,7 @@ register(
     "returned in hash order; (R8b) the scope enum follows pytest's order, parse/as_str agree with it and a "
     "ScopeMismatch is built only under `fixture.scope > dependency.scope`. Soundness/completeness of the cycle "
     "search is not decided.",
-    [_r5a_c16, _r4a_c16, r8.r8b_scope_order, r8.r8d_decorator_keywords, r8.r8a_diagnostic_codes, r3.r3a_clean_before_append, r1e.r1e_worklist_unbounded] + CACHE,
+    [_r5a_c16, _r4a_c16, r8.r8b_scope_order, r8.r8d_decorator_keywords, r8.r8a_diagnostic_codes, r3.r3a_clean_before_append, r1e.r1e_worklist_unbounded, r8.r8h_dependency_edges_kept] + CACHE,
 )
 
 register(
@@ -218,7 +218,7 @@ register(
     "like the server. Equality of counts with the server and byte-identical output are not decided.",
     [r8.r11b_exit_status, r8.r11d_json_output, r8.r11e_report_root_is_scan_root,
      lambda ctx: r4.r4a_unordered(ctx, only_fns=["get_unused_fixtures", "print_fixtures_tree", "compute_definition_usage_counts"], rule="R4a"),
-     r5.r5c_selfref_pairing, r4.r4d_sort_keys_are_projections, r4.r4e_local_memo_keys],
+     r5.r5c_selfref_pairing, r4.r4d_sort_keys_are_projections, r4.r4e_local_memo_keys, r8.r11f_unused_report_ignores_plugin_flag],
 )
 
 register(
